@@ -814,6 +814,7 @@ class StmtMixin:
                     if o.kind in ("ok", "cnt", "brk", "ret"):
                         o = Out(o.kind, self.check_steps(o.st, ls, it0, is_ret=(o.kind == "ret"), is_brk=(o.kind == "brk")), o.val)
                     if o.kind in ("ok", "cnt"):
+                        self.loop_frame_obligations(o.st, it0, ls, self.inv_env(it0, ls))
                         if ls.post_hints:
                             o = Out(o.kind, o.st.copy(), o.val)
                             self.apply_hints(o.st, ls.post_hints, self.inv_env(o.st, ls))
@@ -946,6 +947,8 @@ class StmtMixin:
                         o = Out(o.kind, o.st.assume(Eq(t0_, t1_)), o.val)
                     elif t0_.s != t1_.s:
                         o = Out(o.kind, self.oblige(o.st, Eq(t0_, t1_), "iter", "iterated-list-not-mutated-by-the-loop-body"), o.val)
+                if o.kind in ("ok", "cnt"):
+                    self.loop_frame_obligations(o.st, a.st, ls, self.inv_env(a.st, ls))
                 if o.kind in ("ok", "cnt"):
                     nd = seq_concat(done, seq_unit(x))
                     g2 = {"done": VSeq(nd, ek), f"done{ord_}": VSeq(nd, ek), "seq": VSeq(seq_t, ek),
